@@ -150,3 +150,12 @@ TABLE['C15'] = {
                     'constructors of listed types return new objects'],
     'explanation': 'Deductive part: WorldHandle.load (new world, disabled before any transformer runs, every transformer called exactly once in deque order with (handle, world), on_world_load(handle, world) dispatched exactly once afterwards and queued last, returned disabled), the file handle\'s transformer list (defaults first), default_processors_transformer and populate_world_from_dict (exactly one construction per listed processor/component with the listed packs, add_processor / create_entity invoked with exactly those objects and identifiers, in order). The argument-reference transformers (regular expressions on strings, importlib) and the end-to-end statement are covered by the BOUNDED native stand-in only.',
 }
+
+TABLE['C16'] = {
+    'modules': ['populator_spec'], 'replay': 'populator_replay', 'level': 'other',
+    'bounded_hook': 'pyvc.bounded_native',
+    'bound': 'real directory trees in a temporary directory: every subset of up to 3 (4 in the thorough tier) entries of a pool of 12 files/directories (files with two extensions sharing a stem, a file without extension, nested and empty directories, a directory with a dot in its name) x 6 rule lists (no filter, filter with extra positional and keyword arguments, overlapping rules, a missing directory, nested rule directories) x nest_on_conflict x trim_extensions (given at construction or per call), populated once or twice, with and without an older handle under a key a file takes; plus targeted cases (rule path that is a regular file, equal stems, dot names)',
+    'trusted_base': T_STATE,
+    'assumptions': [],
+    'explanation': 'Deductive part: the rule stores and passes on its arguments (instantiate: exactly one factory call with (path, *args, **kwargs)); the populator keeps its options and appends rules unchanged; __call__: options fall back to the constructor\'s, a rule path that exists and is not a directory raises ValueError and nothing else does, a missing one is skipped; the contract of ONE listing entry - skipped iff an extension filter rejects it, key = root-relative path with the separator replaced (stem of it for regular files when trimming), directory with a free key -> one new sub-map stored under the key, regular file -> one factory call and one store under the key, a new ChainMap layer pushed exactly when nesting is on and the key is held by a top-layer handle. Which paths glob lists, what the stores do to the tree (C11) and hence the whole-tree mirror are covered by the BOUNDED native stand-in only.',
+}
